@@ -926,15 +926,7 @@ func runC12(cx *CheckCtx) {
 				}
 			}
 			cx.decide(okD, "record-delete", "nns.DeleteRecords/keys", "deletes exactly the keys of the scan of (token, name, type)", "deleteRecords does not delete exactly the records of the requested name and type", del.Where(w))
-			hdr := innermostLoop(del.Instr.Block())
-			okL := hdr != nil
-			if okL {
-				for _, e := range loopExits(hdr) {
-					if e.from != hdr {
-						okL = false
-					}
-				}
-			}
+			okL, _ := everyElement(a, del, nil)
 			cx.decide(okL, "record-delete", "nns.DeleteRecords/all", "the loop ends only on exhaustion", "some records of the type can survive deleteRecords", del.Where(w))
 			okS := T != nil && soa.Args[1] == soaKeyFor(tb, T)
 			for _, ex := range a.Exits() {
